@@ -19,8 +19,9 @@ import (
 // clear-text ServerKeyExchange). A hand-written decision table says which end
 // must fail and which must complete.
 
-var c27ServerScen = []string{"trusted", "untrusted", "expired", "notyet", "wrongname", "wrongkey", "badsig", "nointer", "ip_ok", "ip_mismatch", "expired_root", "root_still_valid"}
-var c27ClientScen = []string{"none", "trusted", "untrusted", "expired", "wrongkey", "badsig"}
+var c27ServerScen = []string{"trusted", "untrusted", "expired", "notyet", "wrongname", "wrongkey", "badsig", "nointer", "ip_ok", "ip_mismatch", "expired_root", "root_still_valid",
+	"pathlen", "under_leaf", "resume_ok", "resume_expired"}
+var c27ClientScen = []string{"none", "trusted", "untrusted", "expired", "wrongkey", "badsig", "pathlen", "under_leaf"}
 
 type c27Scenario struct {
 	Seed       uint64 `json:"seed"`
@@ -118,9 +119,9 @@ func genC27(seed uint64, tier string) any {
 		break
 	}
 	sc.Key = keyForSuite(r, suiteByID[sc.Suite], sc.Version)
-	sc.ServerScen = c27ServerScen[r.Pick([]int{9, 1, 1, 1, 1, 2, 2, 1, 1, 1, 1, 1})]
+	sc.ServerScen = c27ServerScen[r.Pick([]int{9, 1, 1, 1, 1, 2, 2, 1, 1, 1, 1, 1, 1, 1, 1, 2})]
 	sc.AuthMode = r.Intn(5)
-	sc.ClientScen = c27ClientScen[r.Pick([]int{2, 3, 1, 1, 2, 2})]
+	sc.ClientScen = c27ClientScen[r.Pick([]int{2, 3, 1, 1, 2, 2, 1, 1})]
 	sc.ClientKey = []string{"rsa", "p256", "p384", "ed"}[r.Pick([]int{3, 3, 1, 2})]
 	if sc.ClientKey == "ed" && sc.Version < vTLS12 {
 		sc.ClientKey = "p256"
@@ -140,7 +141,7 @@ func c27Table(sc *c27Scenario) c27Expect {
 	e := c27Expect{Applicable: true}
 	si := suiteByID[sc.Suite]
 	switch sc.ServerScen {
-	case "trusted", "ip_ok", "root_still_valid":
+	case "trusted", "ip_ok", "root_still_valid", "resume_ok", "resume_expired": // resume_expired: the second connection is judged in execC27
 	case "badsig":
 		if si.Kx == kxRSA {
 			// RSA key exchange carries no server signature; possession is proven by decryption ("wrongkey" covers it)
@@ -170,7 +171,7 @@ func c27Table(sc *c27Scenario) c27Expect {
 		if sc.ClientScen == "wrongkey" || sc.ClientScen == "badsig" {
 			e.ServerMustFail = true
 			e.Reason = "client does not prove possession (" + sc.ClientScen + ")"
-		} else if (sc.ClientScen == "untrusted" || sc.ClientScen == "expired") &&
+		} else if (sc.ClientScen == "untrusted" || sc.ClientScen == "expired" || sc.ClientScen == "pathlen" || sc.ClientScen == "under_leaf") &&
 			(sc.AuthMode == int(tls.VerifyClientCertIfGiven) || sc.AuthMode == int(tls.RequireAndVerifyClientCert)) {
 			e.ServerMustFail = true
 			e.Reason = "client chain does not verify (" + sc.ClientScen + ")"
@@ -191,7 +192,8 @@ func execC27(t *testing.T, scAny any, keepLog bool) *Outcome {
 		run := newSimRun(sc.Seed, sc.Tape, keepLog)
 		s := run.S
 		p := pki()
-		ecfg := EndCfg{MinVersion: sc.Version, MaxVersion: sc.Version, Suites: []uint16{sc.Suite}, ForceSuites: true, KeyKind: sc.Key, NoTickets: true}
+		history := sc.ServerScen == "resume_ok" || sc.ServerScen == "resume_expired"
+		ecfg := EndCfg{MinVersion: sc.Version, MaxVersion: sc.Version, Suites: []uint16{sc.Suite}, ForceSuites: true, KeyKind: sc.Key, NoTickets: !history}
 		scfg := serverConfig(ecfg, s, run.R.Derive("srv-rand"))
 		ccfg := clientConfig(ecfg, s, run.R.Derive("cli-rand"))
 		scfg.ClientAuth = tls.ClientAuthType(sc.AuthMode)
@@ -230,6 +232,19 @@ func execC27(t *testing.T, scAny any, keepLog bool) *Outcome {
 				}
 				scfg.Certificates = []tls.Certificate{c}
 			}
+		case "pathlen":
+			// well-signed chain leaf <- CA <- intermediate with pathLenConstraint 0 <- trusted root
+			scfg.Certificates = []tls.Certificate{{Certificate: [][]byte{p.ServerDeep[kind].DER, p.DeepCA.DER, p.Inter.DER}, PrivateKey: kit.TLSKey(keyOfKind[kind])}}
+		case "under_leaf":
+			// the "issuer" is an end-entity certificate (no CA flag)
+			scfg.Certificates = []tls.Certificate{{Certificate: [][]byte{p.ServerUnderLeaf[kind].DER, p.Server["p256"].DER, p.Inter.DER}, PrivateKey: kit.TLSKey(keyOfKind[kind])}}
+		case "resume_ok", "resume_expired":
+			// two connections sharing a client session cache; the certificate is valid until 2000-02-01. The client's
+			// clock stands at 2000-01-29 for the first connection and is moved by one day (still valid) or four days
+			// (expired; the ticket is younger than its lifetime) before the second.
+			scfg.Certificates = []tls.Certificate{tlsCert(p.ServerShort[kind], true, keyOfKind[kind])}
+			ccfg.ClientSessionCache = tls.NewLRUClientSessionCache(4)
+			ccfg.Time = skew(28 * 24 * time.Hour)
 		case "nointer":
 			scfg.Certificates = []tls.Certificate{tlsCert(p.Server[kind], false, keyOfKind[kind])}
 		case "ip_ok":
@@ -262,6 +277,10 @@ func execC27(t *testing.T, scAny any, keepLog bool) *Outcome {
 			ccert = &c
 			scfg.Time = skew(60 * 24 * time.Hour)
 			o.count("fault.clock_skew_server", 1)
+		case "pathlen":
+			ccert = &tls.Certificate{Certificate: [][]byte{p.ClientDeep[ck].DER, p.DeepCA.DER, p.Inter.DER}, PrivateKey: kit.TLSKey(clientKeyOfKind[ck])}
+		case "under_leaf":
+			ccert = &tls.Certificate{Certificate: [][]byte{p.ClientUnderLeaf[ck].DER, p.Server["p256"].DER, p.Inter.DER}, PrivateKey: kit.TLSKey(clientKeyOfKind[ck])}
 		case "wrongkey":
 			c := tlsCert(p.Client[ck], true, otherKeyOfKind[ck])
 			ccert = &c
@@ -283,6 +302,28 @@ func execC27(t *testing.T, scAny any, keepLog bool) *Outcome {
 			co.SNet.SetFilter(filter)
 		}
 		s.Run()
+		if history {
+			// first connection: everything is in order and must complete
+			if co.CErr != nil || co.SErr != nil {
+				if !exp.ServerMustFail {
+					o.Fail = Failf("c27.good_fails", "handshake failed although every check should pass", "first connection of a resumption history, suite %04x key %s: client err %v server err %v", sc.Suite, sc.Key, co.CErr, co.SErr)
+				}
+			} else {
+				d := 29 * 24 * time.Hour
+				if sc.ServerScen == "resume_expired" {
+					d = 32*24*time.Hour + time.Hour
+					exp.ClientMustFail, exp.ServerMustFail = true, true
+					exp.Reason = "server certificate expired at the client's configured time (second connection, session cached)"
+					o.count("fault.clock_skew_client", 1)
+				}
+				ccfg.Time = skew(d)
+				co = startConn(run, "b", ccfg, scfg, sc.Net, nil)
+				s.Run()
+				if co.CState.DidResume {
+					o.count("probe.second_connection_resumed", 1)
+				}
+			}
+		}
 		if byzFired > 0 {
 			o.count("fault.byzantine_signature", byzFired)
 		}
